@@ -377,14 +377,14 @@ class RemoveFront(MaskMixin, CartesianProductStrategy):
 class _Unary(MaskMixin, DisjointUnionStrategy):
     """Equivalence strategies: one child with exactly the same words."""
 
-    def __init__(self, mask=None, lazy=False, inferrable=True, possibly_empty=False, two_way=True):
-        super().__init__(ignore_parent=True, inferrable=inferrable, possibly_empty=possibly_empty, workable=True)
+    def __init__(self, mask=None, lazy=False, inferrable=True, possibly_empty=False, two_way=True, ignore_parent=True):
+        super().__init__(ignore_parent=ignore_parent, inferrable=inferrable, possibly_empty=possibly_empty, workable=True)
         self.mask = mask
         self.lazy = lazy
         self.two_way = two_way
 
     def _args_repr(self):
-        return "" if self.two_way else "one_way"
+        return ("" if self.two_way else "one_way") + ("" if self.ignore_parent else "+keep_parent")
 
     def is_two_way(self, comb_class):
         # declaring a rule one-way is always allowed (conservative)
@@ -421,7 +421,7 @@ class _Unary(MaskMixin, DisjointUnionStrategy):
 
     @classmethod
     def from_dict(cls, d):
-        return cls(d.get("mask"), d.get("lazy", False), two_way=d.get("two_way", True))
+        return cls(d.get("mask"), d.get("lazy", False), two_way=d.get("two_way", True), ignore_parent=d.get("ignore_parent", True))
 
 
 class ReducePatterns(_Unary):
@@ -722,9 +722,9 @@ class ExpandFactory(StrategyFactory):
 _STRATS = {
     "Expand": lambda s: Expand(s.get("d", 1), _mask(s), s.get("lazy", False)),
     "RemoveFront": lambda s: RemoveFront(_mask(s), s.get("lazy", False)),
-    "ReducePatterns": lambda s: ReducePatterns(_mask(s), s.get("lazy", False), two_way=s.get("two_way", True)),
-    "DropDeadStatistic": lambda s: DropDeadStatistic(_mask(s), s.get("lazy", False), two_way=s.get("two_way", True)),
-    "MergeDuplicateStatistics": lambda s: MergeDuplicateStatistics(_mask(s), s.get("lazy", False), two_way=s.get("two_way", True)),
+    "ReducePatterns": lambda s: ReducePatterns(_mask(s), s.get("lazy", False), two_way=s.get("two_way", True), ignore_parent=s.get("ignore_parent", True)),
+    "DropDeadStatistic": lambda s: DropDeadStatistic(_mask(s), s.get("lazy", False), two_way=s.get("two_way", True), ignore_parent=s.get("ignore_parent", True)),
+    "MergeDuplicateStatistics": lambda s: MergeDuplicateStatistics(_mask(s), s.get("lazy", False), two_way=s.get("two_way", True), ignore_parent=s.get("ignore_parent", True)),
     "TrackLetter": lambda s: TrackLetter(s.get("letter", 0), _mask(s), s.get("lazy", False), s.get("two_way", True)),
     "LetterPermutation": lambda s: LetterPermutation(tuple(s["perm"]), _mask(s), s.get("lazy", False)),
     "WordAtom": lambda s: WordAtom(),
